@@ -12,6 +12,7 @@ import (
 	"crypto/x509/pkix"
 	"encoding/asn1"
 	"encoding/pem"
+	"fmt"
 
 	"github.com/emmansun/gmsm/cfca"
 	"github.com/emmansun/gmsm/ecdh"
@@ -28,6 +29,7 @@ type entry struct {
 	seeds []string
 	f     func(b []byte) bool
 	kdf   bool // password-based: the work-factor guard screens every mutant
+	tier  bool // the code path contains a primitive whose implementation depends on the dispatch tier (SM4 modes)
 	// seeds the entry point is expected to refuse although they are valid artefacts (wrong password, other
 	// layout); every other seed must be accepted unmodified, or the sweep from it would be vacuous
 	rejects []string
@@ -467,7 +469,7 @@ func catalogue(w *world) []*entry {
 		c.CheckSignature()
 		return true
 	})
-	add("cfca.OpenEnvelopedMessage", S("cfca.enveloped", "cfca.enveloped.legacy"), func(b []byte) bool {
+	add("cfca.OpenEnvelopedMessage", S("cfca.enveloped", "cfca.enveloped.gcm", "cfca.enveloped.legacy"), func(b []byte) bool {
 		_, err := cfca.OpenEnvelopedMessage(b, w.leaf, w.sm2B)
 		return err == nil
 	}).rejects = S("cfca.enveloped.legacy")
@@ -628,5 +630,28 @@ func catalogue(w *world) []*entry {
 		})
 	}
 	_ = pkix.Name{}
+	// entry points that decrypt content with an SM4 mode (CBC/ECB/GCM/CFB/OFB, fused or generic by dispatch tier):
+	// swept again in the tiers that select another implementation (workload c13.sweep.tiers)
+	left := map[string]bool{}
+	for _, n := range tierDependent {
+		left[n] = true
+	}
+	for _, e := range es {
+		if left[e.name] {
+			e.tier = true
+			delete(left, e.name)
+		}
+	}
+	for n := range left {
+		panic(seedErr{fmt.Errorf("tier-dependent entry point %q is not in the catalogue", n)})
+	}
 	return es
+}
+
+var tierDependent = []string{
+	"sm2.ParseEnvelopedPrivateKey", "smx509.ParseCSRResponse", "smx509.DecryptPEMBlock/text", "smx509.DecryptPEMBlock/payload-sm4",
+	"pkcs8.ParsePrivateKey/password", "pkcs8.ParsePrivateKey/wrong-password", "pkcs8.ParsePKCS8PrivateKeySM2/password", "pkcs8.ParsePKCS8PrivateKeyRSA/password",
+	"pkcs7.Parse+Decrypt/sm2", "pkcs7.Parse+DecryptCFCA", "pkcs7.Parse+DecryptUsingPSK", "pkcs7.Parse+DecryptAndVerify/sm2",
+	"cfca.ParseSM2", "cfca.OpenEnvelopedMessage", "cfca.OpenEnvelopedMessageLegacy", "cfca.DecryptBySM4CBC",
+	"sm9.DecryptASN1", "sm9.Decrypt/raw-ecb", "sm9.Decrypt/raw-cbc", "sm9.Decrypt/raw-cfb", "sm9.Decrypt/raw-ofb",
 }
